@@ -245,6 +245,24 @@ def eval_case(c):
         Zt = m.transform(da).transpose("time", "mode").values
         if real.relerr(Zt, Z) > 1e-7:
             msgs.append("coefficients of the training data differ from what transform computes")
+        if c.get("history"):
+            # the same holds for a model that was fitted and used before, and for one rebuilt from its tree and computed again
+            x2 = np.zeros((nn, pp))
+            x2[0] = rng.standard_normal(pp)
+            for t in range(1, nn):
+                x2[t] = 0.9 * (A0.T @ x2[t - 1]) + rng.standard_normal(pp)
+            db = real.da2(x2)
+            m.fit(db, "time")
+            Zb, Ztb = m.scores().transpose("time", "mode").values, m.transform(db).transpose("time", "mode").values
+            if real.relerr(Ztb, Zb) > 1e-7:
+                msgs.append("after fit, transform, refit: coefficients of the new training data differ from what transform computes")
+            r = type(m).deserialize(m.serialize())
+            r.compute()
+            sdr = r.scores().transpose("time", "mode").values.std(axis=0)
+            if np.any(np.diff(sdr) > 1e-10 * sdr[0]):
+                msgs.append(f"rebuilt from its tree and computed: modes no longer ordered by descending standard deviation: {sdr}")
+            if real.relerr(r.scores().transpose("time", "mode").values, Zb) > 1e-9:
+                msgs.append("rebuilt from its tree and computed: coefficients changed")
     else:
         # noise-free damped oscillation, fitted without centring: true period and damping time recovered
         period, damp = c["period"], c["damp"]
@@ -269,6 +287,8 @@ def bounded_cases(tier, seed):
         for use_pca, npc in ((False, 6), (True, 4), (True, 2), (True, 6)):
             for center in (True, False):
                 cases.append(dict(kind="random", n=nn, use_pca=use_pca, npc=npc, center=center, keep=not center))
+    for use_pca, npc in ((False, 6), (True, 6)):
+        cases.append(dict(kind="random", n=80, use_pca=use_pca, npc=npc, center=True, history=True, keep=True))
     for period, damp in ((8.0, 30.0), (12.5, 10.0), (5.0, 200.0), (20.0, 15.0)):
         cases.append(dict(kind="oscillator", n=80, period=period, damp=damp, keep=True))
     for i, c in enumerate(cases):
